@@ -122,7 +122,7 @@ Qed.
 Lemma remove_nat_nodup : forall i l, NoDup l -> NoDup (remove_nat i l).
 Proof. intros. apply NoDup_filter. assumption. Qed.
 
-Ltac pcs := unfold counted, inside, in_doInvoke, invoked, set_pc, set_wait, set_lock, set_out, set_full, set_enq, set_ret in *; cbn [k_pc] in *.
+Ltac pcs := unfold counted, inside, in_doInvoke, invoked, set_pc, set_reg, set_wait, set_lock, set_out, set_full, set_enq, set_ret in *; cbn [k_pc] in *.
 
 Lemma InvA_init : InvA init.
 Proof.
@@ -171,15 +171,15 @@ Proof.
     + rewrite (cnt_upd _ _ _ _ _ Heqo). pcs. rewrite Heqp. lia.
     + intros j. cbn [In]. unfold inside_at. split.
       * intros [<-|Hj].
-        -- exists (set_pc c0 Reg). split; [eapply nth_upd_eq; eauto|reflexivity].
+        -- exists (set_reg c0 (rels (tr s))). split; [eapply nth_upd_eq; eauto|reflexivity].
         -- apply Hr in Hj. destruct Hj as [k' [Hk' Hi]]. exists k'. split; [|exact Hi].
            rewrite nth_upd_neq; [exact Hk'|]. intros ->. apply Hni. apply Hr. exists k'. auto.
       * intros [k' [Hk' Hi]]. destruct (nth_upd_inv _ _ _ _ _ _ _ Heqo Hk') as [[-> _]|[Hne Hk'']]; [left; reflexivity|].
         right. apply Hr. exists k'. auto.
     + constructor; assumption.
   - (* LQueueFull *) eapply (InvA_same s _ i c0 (set_full c0)); eauto; pcs; rewrite Heqp; reflexivity.
-  - (* LLock, connection open *) eapply (InvA_same s _ i c0 (set_lock c0 Enq (now s) false)); eauto; pcs; rewrite Heqp; reflexivity.
-  - (* LLock, dial *) eapply (InvA_same s _ i c0 (set_lock c0 Dialing (now s) true)); eauto; pcs; rewrite Heqp; reflexivity.
+  - (* LLock, connection open *) eapply (InvA_same s _ i c0 (set_lock c0 Enq (now s) false (rels (tr s) - k_rel0 c0))); eauto; pcs; rewrite Heqp; reflexivity.
+  - (* LLock, dial *) eapply (InvA_same s _ i c0 (set_lock c0 Dialing (now s) true (rels (tr s) - k_rel0 c0))); eauto; pcs; rewrite Heqp; reflexivity.
   - (* LDialOk *) eapply (InvA_same s _ i c0 (set_wait c0 Enq (now s))); eauto; pcs; rewrite Heqp; reflexivity.
   - (* LDialFail *) eapply (InvA_same s _ i c0 (set_out c0 Error (k_e c0))); eauto; pcs; rewrite Heqp; reflexivity.
   - (* LDialTimeout *) eapply (InvA_same s _ i c0 (set_out c0 Error (k_e c0))); eauto; pcs; rewrite Heqp; reflexivity.
@@ -263,7 +263,7 @@ Definition time_ok (c : cfg) (n : N) (k : call) : Prop :=
 
 Definition InvT (c : cfg) (s : state) : Prop := all_calls (fun _ k => time_ok c (now s) k) (calls s).
 
-Ltac fields := cbn [k_start k_dl k_pc k_t0 k_lockt k_d k_e k_out k_ret] in *.
+Ltac fields := cbn [k_start k_dl k_pc k_t0 k_lockt k_d k_e k_out k_ret k_rel0 k_w] in *.
 Ltac usepc := repeat match goal with H : k_pc _ = _ |- _ => rewrite H in *; clear H end.
 Ltac splitifs :=
   repeat match goal with
@@ -326,7 +326,7 @@ Proof.
       rewrite nth_error_app1; [exact Hk|]. apply nth_error_Some. congruence.
     + intros i k Hk Hd. apply nth_app_inv in Hk. destruct Hk as [Hk|[_ ->]]; [eauto|discriminate].
   - (* LLock, dial *) destruct HL as [H1 H2]. split.
-    + intros j Hj. inversion Hj; subst. exists (set_lock c0 Dialing (now s) true). split; [eapply nth_upd_eq; eauto|reflexivity].
+    + intros j Hj. inversion Hj; subst. exists (set_lock c0 Dialing (now s) true (rels (tr s) - k_rel0 c0)). split; [eapply nth_upd_eq; eauto|reflexivity].
     + intros j k' Hk' Hd. destruct (nth_upd_inv _ _ _ _ _ _ _ Heqo Hk') as [[-> _]|[_ Hk'']]; [reflexivity|].
       rewrite (H2 _ _ Hk'' Hd) in Heqo0. discriminate.
   - (* LDialOk *) destruct HL as [H1 H2]. split; [intros j Hj; discriminate|].
@@ -783,12 +783,12 @@ Proof.
       * exists (LCount i). eexists. cbn [step]. rewrite Hk, Hp, Hq. split; [discriminate|]. split; [reflexivity|]. unfold mu; cbn [calls rcvs now].
         specialize (Hm (set_pc k Counted)). cbn in Hm. split; [lia|reflexivity].
     + exists (LReg i). eexists. cbn [step]. rewrite Hk, Hp. split; [discriminate|]. split; [reflexivity|]. unfold mu; cbn [calls rcvs now].
-      specialize (Hm (set_pc k Reg)). cbn in Hm. split; [lia|reflexivity].
+      specialize (Hm (set_reg k (rels (tr s)))). cbn in Hm. split; [lia|reflexivity].
     + destruct (lock s) eqn:Hl; [discriminate|]. exists (LLock i). destruct (conn_open s) eqn:Ho.
       * eexists. cbn [step]. rewrite Hk, Hl, Hp, Ho. split; [discriminate|]. split; [reflexivity|]. unfold mu, with_calls; cbn [calls rcvs now].
-        specialize (Hm (set_lock k Enq (now s) false)). cbn in Hm. split; [lia|reflexivity].
+        specialize (Hm (set_lock k Enq (now s) false (rels (tr s) - k_rel0 k))). cbn in Hm. split; [lia|reflexivity].
       * eexists. cbn [step]. rewrite Hk, Hl, Hp, Ho. split; [discriminate|]. split; [reflexivity|]. unfold mu; cbn [calls rcvs now].
-        specialize (Hm (set_lock k Dialing (now s) true)). cbn in Hm. split; [lia|reflexivity].
+        specialize (Hm (set_lock k Dialing (now s) true (rels (tr s) - k_rel0 k))). cbn in Hm. split; [lia|reflexivity].
     + exists (LDialTimeout i). eexists. cbn [step]. rewrite Hk, Hp, Hc. split; [discriminate|]. split; [reflexivity|]. unfold mu; cbn [calls rcvs now].
       specialize (Hm (set_out k Error (k_e k))). cbn in Hm. split; [lia|reflexivity].
     + destruct (N.of_nat (length (sendq s)) <? qcap c) eqn:Hr.
@@ -835,6 +835,146 @@ Proof.
     intros [A|A]; [congruence|contradiction].
   - exists [], s. cbn. repeat split; auto. rewrite Hu. discriminate.
 Qed.
+
+(* ---- W. waiting for connLock: every release by a dialling call is counted; a call that waits has waited at most
+   (releases since it began to wait) * DialTimeout, plus the current holder's dial ---- *)
+Definition wait_ok (c : cfg) (s : state) (k : call) : Prop :=
+  match k_pc k with
+  | Reg => k_rel0 k <= rels (tr s) /\
+           match lock s with
+           | None => now s <= k_start k + (rels (tr s) - k_rel0 k) * dialT c
+           | Some j => forall kj, nth_error (calls s) j = Some kj -> k_lockt kj <= k_start k + (rels (tr s) - k_rel0 k) * dialT c
+           end
+  | _ => k_lockt k <= k_start k + k_w k * dialT c
+  end.
+Definition InvW (c : cfg) (s : state) : Prop := all_calls (fun _ k => wait_ok c s k) (calls s).
+
+Lemma InvW_init : forall c, InvW c init.
+Proof. intros c [|i] k H; discriminate. Qed.
+
+(* call i is replaced; lock, release count and clock stay; the replaced call keeps its lock time unless nobody holds the lock *)
+Lemma wait_frame : forall c s s' i k x, nth_error (calls s) i = Some k -> calls s' = upd (calls s) i x ->
+  lock s' = lock s -> rels (tr s') = rels (tr s) -> now s' = now s -> (k_lockt x = k_lockt k \/ lock s = None) ->
+  InvW c s -> wait_ok c s' x -> InvW c s'.
+Proof.
+  intros c s s' i k x Hk Hc Hl Hr Hn Hlt HW Hx. unfold InvW. rewrite Hc. apply (all_upd2 _ _ _ _ _ Hk); [|exact Hx].
+  intros j kj Hne Hj. specialize (HW j kj Hj). cbv beta in *. unfold wait_ok in *. rewrite Hl, Hr, Hn.
+  destruct (k_pc kj); try exact HW. destruct HW as [H0 HW]. split; [exact H0|].
+  destruct (lock s) as [h|] eqn:Eh; [|exact HW]. intros kh Hkh. rewrite Hc in Hkh.
+  destruct (nth_upd_inv _ _ _ _ _ _ _ Hk Hkh) as [[-> ->]|[_ Hkh']].
+  - destruct Hlt as [E|E]; [rewrite E; apply HW; exact Hk|discriminate].
+  - apply HW; exact Hkh'.
+Qed.
+
+(* nothing about the calls, the lock, the release count or the clock changes *)
+Lemma wait_same : forall c s s', calls s' = calls s -> lock s' = lock s -> rels (tr s') = rels (tr s) -> now s' = now s ->
+  InvW c s -> InvW c s'.
+Proof.
+  intros c s s' Hc Hl Hr Hn HW. unfold InvW. rewrite Hc. intros j kj Hj. specialize (HW j kj Hj). cbv beta in *.
+  unfold wait_ok in *. rewrite Hl, Hr, Hn, Hc. exact HW.
+Qed.
+
+Ltac wsolve := unfold wait_ok in *; pcs; fields; usepc; fields; splitifs; fields; try lia.
+
+Lemma InvW_step : forall c s l s', 0 < writeT c -> reach c s -> InvW c s -> step c s l = Some s' -> InvW c s'.
+Proof.
+  intros c s l s' Hw Hreach HW H.
+  pose proof (InvT_reach c s Hw Hreach) as HT. pose proof (InvL_reach c s Hreach) as [HL1 HL2].
+  destruct l; inv_step H.
+  - (* Tick *)
+    intros j kj Hj. pose proof (HW j kj Hj) as Hok. cbv beta in *. cbn [calls] in Hj. unfold wait_ok in *. cbn [lock tr now calls].
+    destruct (k_pc kj) eqn:Hp; try exact Hok. destruct Hok as [H0 Hok]. split; [exact H0|].
+    destruct (lock s) eqn:El; [exact Hok|]. exfalso.
+    apply orb_false_elim in Heqb. destruct Heqb as [Hu _].
+    pose proof (existsb_false_nth _ _ _ _ _ Hu Hj) as Hnu. unfold call_urgent in Hnu. rewrite Hp, El in Hnu. discriminate.
+  - (* Start *)
+    unfold InvW, with_calls. cbn [calls]. apply all_app.
+    + intros j kj Hj. pose proof (HW j kj Hj) as Hok. cbv beta in *. unfold wait_ok in *. cbn [lock tr now calls].
+      destruct (k_pc kj); try exact Hok. destruct Hok as [H0 Hok]. split; [exact H0|].
+      destruct (lock s) as [h|] eqn:El; [|exact Hok]. intros kh Hkh. apply nth_app_inv in Hkh. destruct Hkh as [Hkh|[Eh _]]; [apply Hok; exact Hkh|].
+      destruct (HL1 h eq_refl) as [kd [Hkd _]]. assert (h < length (calls s))%nat by (apply nth_error_Some; congruence). lia.
+    + cbv beta. unfold wait_ok. cbn. lia.
+  - (* LPre *) eapply (wait_frame c s _ i c0 _ Heqo); try reflexivity; [left; reflexivity|exact HW|]. pose proof (HW _ _ Heqo) as Hok. cbv beta in Hok. wsolve.
+  - (* LReg: the call begins to wait for connLock *)
+    eapply (wait_frame c s _ i c0 _ Heqo); try reflexivity; [left; reflexivity|exact HW|].
+    pose proof (HT _ _ Heqo) as Ht. cbv beta in Ht. unfold time_ok in Ht. rewrite Heqp in Ht. destruct Ht as [T1 [T2 [T3 [T4 T5]]]].
+    unfold wait_ok. cbn [set_reg k_pc k_rel0 k_start lock tr now]. split; [lia|].
+    destruct (lock s) as [h|] eqn:El; [|lia]. intros kh Hkh. cbn [calls] in Hkh.
+    destruct (Nat.eq_dec h i) as [->|Hne].
+    + exfalso. destruct (HL1 i eq_refl) as [kd [Hkd Hd]]. rewrite Heqo in Hkd. inversion Hkd; subst kd. congruence.
+    + rewrite nth_upd_neq in Hkh by congruence. destruct (HL1 h eq_refl) as [kd [Hkd Hd]]. rewrite Hkd in Hkh. inversion Hkh; subst kh.
+      pose proof (HT _ _ Hkd) as Th. cbv beta in Th. unfold time_ok in Th. rewrite Hd in Th. lia.
+  - (* LQueueFull *) eapply (wait_frame c s _ i c0 _ Heqo); try reflexivity; [left; reflexivity|exact HW|]. pose proof (HW _ _ Heqo) as Hok. cbv beta in Hok. wsolve.
+  - (* LLock, connection open *)
+    eapply (wait_frame c s _ i c0 _ Heqo); try reflexivity; [right; assumption|exact HW|].
+    pose proof (HW _ _ Heqo) as Hok. cbv beta in Hok. unfold wait_ok in *. rewrite Heqp, Heqo0 in Hok. cbn [set_lock k_pc k_lockt k_start k_w]. lia.
+  - (* LLock, dial: this call becomes the holder *)
+    unfold InvW. cbn [calls]. apply (all_upd2 _ _ _ _ _ Heqo).
+    + intros j kj Hne Hj. pose proof (HW j kj Hj) as Hok. cbv beta in *. unfold wait_ok in *. cbn [lock tr now calls].
+      destruct (k_pc kj); try exact Hok. rewrite Heqo0 in Hok. destruct Hok as [H0 Hok]. split; [exact H0|].
+      intros kh Hkh. rewrite (nth_upd_eq _ _ _ _ _ Heqo) in Hkh. inversion Hkh; subst kh. cbn [set_lock k_lockt]. exact Hok.
+    + cbv beta. pose proof (HW _ _ Heqo) as Hok. cbv beta in Hok. unfold wait_ok in *. rewrite Heqp, Heqo0 in Hok. cbn [set_lock k_pc k_lockt k_start k_w]. lia.
+  - (* LDialOk: a release *)
+    pose proof (HL2 _ _ Heqo Heqp) as El. pose proof (HT _ _ Heqo) as Th. cbv beta in Th. unfold time_ok in Th. rewrite Heqp in Th.
+    unfold InvW. cbn [calls]. apply (all_upd2 _ _ _ _ _ Heqo).
+    + intros j kj Hne Hj. pose proof (HW j kj Hj) as Hok. cbv beta in *. unfold wait_ok in *. cbn [lock tr now calls rels].
+      destruct (k_pc kj); try exact Hok. rewrite El in Hok. destruct Hok as [H0 Hok]. specialize (Hok _ Heqo). split; [lia|].
+      replace (rels (tr s) + 1 - k_rel0 kj) with (rels (tr s) - k_rel0 kj + 1) by lia. lia.
+    + cbv beta. pose proof (HW _ _ Heqo) as Hok. cbv beta in Hok. wsolve.
+  - (* LDialFail: a release *)
+    pose proof (HL2 _ _ Heqo Heqp) as El. pose proof (HT _ _ Heqo) as Th. cbv beta in Th. unfold time_ok in Th. rewrite Heqp in Th.
+    unfold InvW. cbn [calls]. apply (all_upd2 _ _ _ _ _ Heqo).
+    + intros j kj Hne Hj. pose proof (HW j kj Hj) as Hok. cbv beta in *. unfold wait_ok in *. cbn [lock tr now calls rels].
+      destruct (k_pc kj); try exact Hok. rewrite El in Hok. destruct Hok as [H0 Hok]. specialize (Hok _ Heqo). split; [lia|].
+      replace (rels (tr s) + 1 - k_rel0 kj) with (rels (tr s) - k_rel0 kj + 1) by lia. lia.
+    + cbv beta. pose proof (HW _ _ Heqo) as Hok. cbv beta in Hok. wsolve.
+  - (* LDialTimeout: a release *)
+    pose proof (HL2 _ _ Heqo Heqp) as El. pose proof (HT _ _ Heqo) as Th. cbv beta in Th. unfold time_ok in Th. rewrite Heqp in Th.
+    unfold InvW. cbn [calls]. apply (all_upd2 _ _ _ _ _ Heqo).
+    + intros j kj Hne Hj. pose proof (HW j kj Hj) as Hok. cbv beta in *. unfold wait_ok in *. cbn [lock tr now calls rels].
+      destruct (k_pc kj); try exact Hok. rewrite El in Hok. destruct Hok as [H0 Hok]. specialize (Hok _ Heqo). split; [lia|].
+      replace (rels (tr s) + 1 - k_rel0 kj) with (rels (tr s) - k_rel0 kj + 1) by lia. lia.
+    + cbv beta. pose proof (HW _ _ Heqo) as Hok. cbv beta in Hok. wsolve.
+  - (* LEnq *) eapply (wait_frame c s _ i c0 _ Heqo); try reflexivity; [left; unfold set_enq; destruct (k_ow c0); reflexivity|exact HW|]. pose proof (HW _ _ Heqo) as Hok. cbv beta in Hok. wsolve.
+  - (* LEnqTimeout *) eapply (wait_frame c s _ i c0 _ Heqo); try reflexivity; [left; reflexivity|exact HW|]. pose proof (HW _ _ Heqo) as Hok. cbv beta in Hok. wsolve.
+  - (* LCtxFire *) eapply (wait_frame c s _ i c0 _ Heqo); try reflexivity; [left; reflexivity|exact HW|]. pose proof (HW _ _ Heqo) as Hok. cbv beta in Hok. wsolve.
+  - (* LClean *) eapply (wait_frame c s _ i c0 _ Heqo); try reflexivity; [left; reflexivity|exact HW|]. pose proof (HW _ _ Heqo) as Hok. cbv beta in Hok. wsolve.
+  - (* LPost *) eapply (wait_frame c s _ i c0 _ Heqo); try reflexivity; [left; reflexivity|exact HW|]. pose proof (HW _ _ Heqo) as Hok. cbv beta in Hok. wsolve.
+  - (* LSendTake *) apply (wait_same c s); [reflexivity|reflexivity|reflexivity|reflexivity|exact HW].
+  - (* LConnDown *) apply (wait_same c s); [reflexivity|reflexivity|reflexivity|reflexivity|exact HW].
+  - (* LPeerPkt *) apply (wait_same c s); [reflexivity|reflexivity|reflexivity|reflexivity|exact HW].
+  - (* LLookup *) apply (wait_same c s); [reflexivity|reflexivity|reflexivity|reflexivity|exact HW].
+  - apply (wait_same c s); [reflexivity|reflexivity|reflexivity|reflexivity|exact HW].
+  - apply (wait_same c s); [reflexivity|reflexivity|reflexivity|reflexivity|exact HW].
+  - (* LDeliver *) eapply (wait_frame c s _ j c0 _ Heqo0); try reflexivity; [left; reflexivity|exact HW|]. pose proof (HW _ _ Heqo0) as Hok. cbv beta in Hok. wsolve.
+  - (* LGiveUp *) apply (wait_same c s); [reflexivity|reflexivity|reflexivity|reflexivity|exact HW].
+  - (* LIdleClose *) apply (wait_same c s); [reflexivity|cbn [lock]; congruence|reflexivity|reflexivity|exact HW].
+  - (* LCancel *) eapply (wait_frame c s _ i c0 _ Heqo); try reflexivity; [left; reflexivity|exact HW|]. pose proof (HW _ _ Heqo) as Hok. cbv beta in Hok. wsolve.
+  - (* LFilterErr *) eapply (wait_frame c s _ i c0 _ Heqo); try reflexivity; [left; reflexivity|exact HW|]. pose proof (HW _ _ Heqo) as Hok. cbv beta in Hok. wsolve.
+  - (* LCount *) eapply (wait_frame c s _ i c0 _ Heqo); try reflexivity; [left; reflexivity|exact HW|]. pose proof (HW _ _ Heqo) as Hok. cbv beta in Hok. wsolve.
+  - (* LUncount *) eapply (wait_frame c s _ i c0 _ Heqo); try reflexivity; [left; reflexivity|exact HW|]. pose proof (HW _ _ Heqo) as Hok. cbv beta in Hok. wsolve.
+Qed.
+
+Theorem InvW_reach : forall c s, 0 < writeT c -> reach c s -> InvW c s.
+Proof. intros c s Hw. induction 1; [apply InvW_init|eapply InvW_step; eauto]. Qed.
+
+(* the deadline clause with the wait for connLock made explicit: position in the dial queue *)
+Theorem returns_position : forall c s i k, 0 < writeT c -> reach c s -> nth_error (calls s) i = Some k -> k_pc k = Returned ->
+  k_ret k <= N.max (k_dl k) (k_start k + (k_w k + (if k_d k then 1 else 0)) * dialT c + (if k_e k then writeT c else 0)).
+Proof.
+  intros c s i k Hw H Hk Hp. pose proof (returns_partial c s i k Hw H Hk Hp) as Hb.
+  pose proof (InvW_reach c s Hw H _ _ Hk) as Hwk. cbv beta in Hwk. unfold wait_ok in Hwk. rewrite Hp in Hwk.
+  unfold B, dl_d, wr_e in Hb. destruct (k_d k), (k_e k); lia.
+Qed.
+
+(* the bound is attained: in the stalled-dial witness the second caller waited for one dial of the first and dialled itself *)
+Example position_bound_attained :
+  match run stalled_cfg init stalled_trace with
+  | Some s => match nth_error (calls s) 1 with
+              | Some k => k_w k = 1 /\ k_d k = true /\ k_e k = false /\ k_ret k = k_start k + (k_w k + 1) * dialT stalled_cfg
+              | None => False end
+  | None => False end.
+Proof. vm_compute. repeat split; reflexivity. Qed.
 
 (* ---- the resource ledger of a call: everything a call can hold, cleared whatever its outcome ---- *)
 Record ledger_clear (c : cfg) (s : state) (i : nat) : Prop := {
